@@ -103,11 +103,12 @@ pub fn dym_pairs() {
 }
 /// candidate lists with ties, exact matches and the empty list; received around every budget threshold; multi-byte input
 pub fn dym_lists() {
-    const POOL: [&str; 8] = ["", "abcd", "abdc", "abce", "abcdefgh", "abcdefgx", "\u{e9}t\u{e9}s", "abcdefghijklm"];
-    const RECV: [&str; 12] = ["", "abc", "abcd", "abcx", "abcdefg", "abcdefgh", "abcdxfgy", "abcdefghijkl", "abcdefghijklm", "abcdefghijklmnopq", "abcdefghijklmnopqrstuvwx", "\u{e9}t\u{e9}"];
-    let r = RECV[nd::below(12) as usize];
+    const POOL: [&str; 10] = ["", "abcd", "abdc", "abce", "abcdefgh", "abcdefgx", "\u{e9}t\u{e9}s", "abcdefghijklm", "pr\u{e9}nom", "\u{e9}\u{e9}\u{e9}e"];
+    // multi-byte received strings whose byte length and character count fall into different budget buckets
+    const RECV: [&str; 15] = ["", "abc", "abcd", "abcx", "abcdefg", "abcdefgh", "abcdxfgy", "abcdefghijkl", "abcdefghijklm", "abcdefghijklmnopq", "abcdefghijklmnopqrstuvwx", "\u{e9}t\u{e9}", "pr\u{e8}noms", "\u{e9}\u{e9}\u{e9}\u{e9}", "\u{e9}\u{e9}"];
+    let r = RECV[nd::below(15) as usize];
     let n = nd::below(4);
-    let mut acc: Vec<&str> = Vec::new(); let mut i = 0; while i < n { acc.push(POOL[nd::below(8) as usize]); i += 1; }
+    let mut acc: Vec<&str> = Vec::new(); let mut i = 0; while i < n { acc.push(POOL[nd::below(10) as usize]); i += 1; }
     let dist: Vec<usize> = acc.iter().map(|c| dl_spec(r, c)).collect();
     let got = did_you_mean(r, &acc);
     oblige!(got == spec_suggestion(r.len(), &acc, &dist), "C18:suggests_only_a_closest_accepted_name_within_the_budget");
